@@ -75,6 +75,27 @@ def _foreign_dialect():
 def impl(op: str) -> str:
     a = op.split(" ")
     k = a[0]
+    if k == "asview":
+        # the script argument as another bytes-like type (bytearray / memoryview): the decoders read the same instructions
+        conv = {"bytearray": bytearray, "memoryview": memoryview}[a[1]]
+        kk, b = a[2], conv(unhx(a[3]))
+        try:
+            if kk == "getop":
+                opcode, data, pc, is_ok = STREAMER.get_opcode(b, int(a[4]), verify_minimal_data=_flag(a[5]))
+                return "ok %d %s %d %d" % (opcode, _show_data(data), pc, 1 if is_ok else 0)
+            if kk == "ops":
+                items, err = [], ""
+                try:
+                    for opcode, data, pc, new_pc in ST.get_opcodes(b, verify_minimal_data=_flag(a[4])):
+                        items.append("%d:%s:%d:%d" % (opcode, _show_data(data), pc, new_pc))
+                except Exception as e:  # noqa: BLE001
+                    err = " err " + type(e).__name__
+                return "ok " + show_list(items) + err
+            if kk == "disasm":
+                return "ok " + hx(ST.disassemble(b).encode("utf8"))
+        except Exception as e:  # noqa: BLE001
+            return "err " + type(e).__name__
+        return "bad-op"
     if k == "dialect_then":
         try:
             _foreign_dialect()
@@ -278,6 +299,8 @@ def oracle(op: str, out: str):
     k = a[0]
     if k == "dialect_then":
         return oracle(op.split(" ", 1)[1], out)
+    if k == "asview":
+        return oracle(op.split(" ", 2)[2], out)
     if k == "numenc":
         v = int(a[1])
         if not out.startswith("ok "):
@@ -407,6 +430,8 @@ def trivial(op: str) -> bool:
     a = op.split(" ")
     if a[0] == "dialect_then":
         a = a[1:]
+    if a[0] == "asview":
+        a = a[2:]
     return (a[0] in ("push", "compile", "disasm") and a[1] in ("~", "-")) or (a[0] in ("getop", "ops") and a[1] == "-")
 
 
@@ -416,6 +441,8 @@ def neighbours(op, rng):
     if k == "dialect_then":
         for o in neighbours(op.split(" ", 1)[1], rng):
             yield "dialect_then " + o
+        return
+    if k == "asview":
         return
     if k == "numenc":
         v = int(a[1])
@@ -723,3 +750,13 @@ def gen(ctx, emit):
         sc = clean_script()
         emit("dialect_then disasm %s" % hx(sc), "second-streamer")
         emit("dialect_then compile " + tx(ref_disasm(sc)), "second-streamer")
+
+    # ---- the script as a bytearray / a memoryview (bytes-like arguments are scripts too)
+    for kind in ("bytearray", "memoryview"):
+        for blob in (b"\x00", b"\x01\x07", b"\x4c\x01\x07", b"\x4c\x4c" + b"\x09" * 76, b"\x4d\x00\x01" + b"\x09" * 256, b"\x51\x76\xa9\x14" + b"\x05" * 20 + b"\x88\xac",
+                     b"\x29" + b"\x05" * 41, b"\x02\x01", b"\x4c"):
+            emit("asview %s getop %s 0 0" % (kind, hx(blob)), "bytes-like-script")
+            emit("asview %s ops %s 1" % (kind, hx(blob)), "bytes-like-script")
+            emit("asview %s disasm %s" % (kind, hx(blob)), "bytes-like-script")
+        for _ in range(ctx.n(20, 400)):
+            emit("asview %s disasm %s" % (kind, hx(clean_script())), "bytes-like-script")
